@@ -10,14 +10,6 @@ import (
 	"verifharness/internal/hx"
 )
 
-type Config struct {
-	Goderive string
-	Work     string
-	Out      string
-	Seed     uint64
-	Tier     string
-}
-
 // carrier: a Go type that can carry an element id, with encoder/decoder expressions.
 type carrier struct {
 	name string // identifier-safe
@@ -41,7 +33,7 @@ var carriers = []carrier{
 	{"pp", "**int", "ppint(x)", "**v"},
 }
 
-func Run(cfg Config) (*hx.Meta, error) {
+func Run(cfg hx.Config) (*hx.Meta, error) {
 	meta := &hx.Meta{Property: "C17", Seed: cfg.Seed, Tier: cfg.Tier}
 	r := hx.NewRand(cfg.Seed)
 	dir := filepath.Join(cfg.Work, "c17pkg")
